@@ -30,14 +30,16 @@
 (*    (a grid point, or AnyV = anywhere in the closed interval), and for    *)
 (*    every assignment `sem`: 1 must be accepted (strictly inside), 0 must *)
 (*    be rejected (outside, NaN), 2 undetermined by the property (exactly  *)
-(*    a bound; intersect) - there the semantic machine follows the outcome.*)
+(*    a bound, an infinite or saturating raw value, intersect) - there the *)
+(*    semantic machine follows the outcome.                                *)
 (* Properties: InBounds, Agree, SetThenRead, RejectIffOutside.             *)
 (***************************************************************************)
 EXTENDS Integers, Sequences, FiniteSets, TLC
 
 CONSTANTS Cons,            \* sequence of constraint records; Cons[1] is the one the module is constructed with
           SetV,            \* values offered to the property setter
-          RawA,            \* arguments of initialize(raw_p = .): -1 = -inf, 1..3 finite classes, 9 = +inf, 13 = NaN
+          RawA,            \* arguments of initialize(raw_p = .): -1 = -inf, 1 / 2 / 3 = very negative / moderate / very
+                           \* positive finite number, 9 = +inf, 13 = NaN
           NameA,           \* <<v, path>> for initialize(p = v): path 0 = on the owner, 1 = dotted path from the root
           OptK,            \* finite raw classes an optimiser step can move to
           RegA,            \* <<i, replace>>: register_constraint(raw_p, Cons[i], replace = (replace = 1))
@@ -144,7 +146,7 @@ InitRaw(a) ==
   /\ Room
   /\ LET r   == RawOf(a)
          ok  == CheckRaw(con, r)
-         sem == IF a = NaN THEN 0 ELSE IF a \in {-1, 9} THEN 2 ELSE 1
+         sem == IF a = NaN THEN 0 ELSE IF a = 2 THEN 1 ELSE 2     \* infinite and saturating raw values land exactly on a bound
          al  == IF sem = 1 \/ (sem = 2 /\ ok) THEN AnyV ELSE allowed
      IN /\ InitializeRaw(r)
         /\ allowed' = al
